@@ -15,6 +15,8 @@ FUNCTIONS = ["btc_hd_wallet.base_wallet.BaseWallet.__init__", "btc_hd_wallet.bas
              "btc_hd_wallet.bip32.PubKeyNode.parse", "btc_hd_wallet.bip32.PubKeyNode._parse", "btc_hd_wallet.bip32.PubKeyNode.ckd (real code in the step case)"]
 BOUNDS = {"export node": "free key, chain code, depth 0..255, child number, parent fingerprint; each of the six public version prefixes",
           "sub-paths": "non-hardened free indexes, length 0..3 (quick) / 0..5 (thorough); a hardened index at every position for the refusal"}
+BOUNDS_ADDED = 'leaf derivation by the real ckd on both sides (L = 1..2); derived node kept alone (watch-only wallet and ancestors garbage-collected)'
+BOUNDS["histories, lifetimes, injected faults, boundary vectors"] = BOUNDS_ADDED
 STUBS = ["child derivation -> contract summary (the agreement of the real public and private ckd is C02)", "Base58Check -> summary",
          "secp256k1 -> group model; hashes -> uninterpreted"]
 ASSUMPTIONS = ["private material is not among the inputs of the watch-only side (it is built from the xpub string only)"]
